@@ -2,7 +2,7 @@
 From Coq Require Import List String Ascii ZArith.
 Import ListNotations.
 Open Scope string_scope.
-Definition package_level_vars : list string := ["internal/parser/parser.go:parsedProfiles"; "internal/parser/profile/vargenerator.go:globalCounter"; "internal/validator/process_profile.go:unsafeBuiltinsMap"; "internal/validator/report_nodes.go:processingDataNode"; "internal/validator/contexts/contexts.go:ApiExtensionUri"; "internal/validator/contexts/contexts.go:DefaultAMFContext"].
+Definition package_level_vars : list string := ["internal/parser/profile/vargenerator.go:globalCounter"; "internal/validator/process_profile.go:unsafeBuiltinsMap"; "internal/validator/report_nodes.go:processingDataNode"; "internal/validator/contexts/contexts.go:ApiExtensionUri"; "internal/validator/contexts/contexts.go:DefaultAMFContext"].
 Definition genreset_call_sites : list string := ["internal/validator/test_utils.go"].
 Definition sk_genvar : string := "return call Sprintf, call AddInt64".
 Definition sk_get_map_keys : string := "call Map; if err != nil { return }; call make; for { if pending { call append; call delete } }; return".
